@@ -2,6 +2,7 @@
 Drive the real reader against a simulated transport and canonicalise what it does.
 """
 
+from sim import core
 from sim.transports import SimBudgetExceeded, make_transport
 
 MAX_ITEMS_SLACK = 16
@@ -34,7 +35,7 @@ def exc_origin(err) -> str:
     while tb.tb_next is not None:
         tb = tb.tb_next
     fn = tb.tb_frame.f_code.co_filename
-    for marker in ("/site-packages/", "/repo/src/", "/lib/python3"):
+    for marker in ("/site-packages/", core.REPO_SRC.rstrip("/") + "/", "/lib/python3"):
         if marker in fn:
             fn = fn.split(marker, 1)[1]
             break
